@@ -1348,6 +1348,8 @@ def _e2e_child(cfg):
         out["started"] = [nm(j) for t, k, j in ev if k == "start"]
         out["failed"] = [nm(j) for t, k, j in ev if k == "fail"]
         out["max_simultaneous_bodies"] = mx
+        if cfg.get("raw") and ev:
+            out["raw"] = [(round(t - ev[0][0], 2), k, nm(j)) for t, k, j in ev]
     finally:
         shutil.rmtree(root, ignore_errors=True)
     print("E2E-RESULT " + json.dumps(out), flush=True)
@@ -1381,10 +1383,10 @@ def e2e_c14():
     chain b -> c -> d is half way; the property demands that d still runs"""
     import concurrent.futures as cf
 
-    nodes = ["a@3.0", "b", "c<b@7.0", "d<c"]
+    nodes = ["a@5.0", "b", "c<b@10.0", "d<c"]
     lines = []
     runs = [
-        ("cf worker n_procs=2, a fails after 3 s while c (independent, 7 s) is running", {"worker": "cf", "n_procs": 2}, ["100<>"]),
+        ("cf worker n_procs=2, a fails after 5 s while c (independent, 10 s) is running", {"worker": "cf", "n_procs": 2}, ["100<>"]),
         ("cf worker n_procs=2, nothing fails", {"worker": "cf", "n_procs": 2}, []),
         ("debug worker, a fails (sequential loop: the first failure ends the run by design)", {"worker": "debug"}, ["100<>"]),
     ]
@@ -1402,10 +1404,10 @@ def e2e_c14():
 def e2e_c16():
     import concurrent.futures as cf
 
-    nodes = ["a@2.0", "b@8.0", "c@5.0", "d@5.0"]
+    nodes = ["a@4.0", "b@12.0", "c@6.0", "d@6.0"]
     lines = []
     runs = [
-        ("cf worker n_procs=4 max_concurrent=2, four independent jobs a(2s) b(8s) c(5s) d(5s)", {"worker": "cf", "n_procs": 4, "max_concurrent": 2}),
+        ("cf worker n_procs=4 max_concurrent=2, four independent jobs a(4s) b(12s) c(6s) d(6s)", {"worker": "cf", "n_procs": 4, "max_concurrent": 2}),
         ("debug worker max_concurrent=2, same workflow", {"worker": "debug", "max_concurrent": 2}),
     ]
     with cf.ThreadPoolExecutor(len(runs)) as ex:
